@@ -4,7 +4,7 @@ import os
 import shutil
 import tempfile
 
-LETTERS = {1: u"a", 2: u"b", 3: u"c", 4: u"é", 5: u"\U0001F600"}
+LETTERS = {1: u"a", 2: u"b", 3: u"c", 4: u"é", 5: u"\U0001F600", 6: u"\U0001F601"}
 GAPWORD = u"the"
 UNIT = 65536
 
